@@ -5,6 +5,7 @@ package parser
 // Parse converts into a ParserError value - is a violation.
 
 import (
+	"github.com/DDP-Projekt/Kompilierer/src/ast"
 	"github.com/DDP-Projekt/Kompilierer/src/ddperror"
 	"github.com/DDP-Projekt/Kompilierer/src/scanner"
 	"github.com/DDP-Projekt/Kompilierer/src/token"
@@ -109,6 +110,16 @@ var vC03Prefixes = []string{
 	"Die Zahl x ist",
 	"Die Zahlen Liste l ist eine Liste, die aus 1,",
 	"Der Text t ist \"a\".\nSpeichere 'b' in t an der Stelle",
+	// declarations cut off inside a type, and declarations where a statement is expected
+	"Die Funktion f mit dem Parameter a vom Typ",
+	"Die Funktion f mit dem Parameter a vom Typ Text Listen",
+	"Die Funktion f mit den Parametern a und b vom Typ Zahl und",
+	"Die Zahlen Listen",
+	"Der Alias \"x y\" steht für die Funktion",
+	"Wenn wahr, Der Alias \"x y\" steht für die Funktion",
+	"Wenn wahr, Die Funktion f gibt nichts zurück, macht:\n",
+	"Wenn wahr, Wir nennen die Kombination aus\n",
+	"Solange wahr, Die Zahl x ist",
 }
 
 // verifC03AfterPrefix: the whole frontend on a concrete opening followed by k tokens of symbolic
@@ -143,13 +154,12 @@ func verifC03AfterPrefix(k int) {
 	}
 	toks = append(toks, token.Token{Type: token.EOF, Range: token.Range{Start: token.Position{Line: line + 1, Column: 1}, End: token.Position{Line: line + 1, Column: 1}}})
 	delivered := 0
-	mod, perr := Parse(Options{FileName: "x.ddp", Tokens: toks, ErrorHandler: func(ddperror.Error) { delivered++ }})
-	if perr != nil {
-		_, crashed := perr.(*ParserError)
-		rt.Assert(!crashed, "the frontend does not crash internally (ParserError)")
+	mod, crash := vC03Parse(Options{FileName: "x.ddp", Tokens: toks, ErrorHandler: func(ddperror.Error) { delivered++ }})
+	if crash != "" {
+		rt.Assert(false, "the frontend does not crash internally: "+crash)
 		return
 	}
-	rt.Assert(mod != nil && mod.Ast != nil, "a module is returned")
+	rt.Assert(mod == nil || mod.Ast != nil, "a module is returned")
 }
 
 func VerifC03AfterPrefix1() { verifC03AfterPrefix(1) }
@@ -168,16 +178,46 @@ func verifC03AliasText(k int, boolean bool) {
 	src := append([]byte(head), rt.Bytes("alias", k)...)
 	src = append(src, []byte("\"\n")...)
 	delivered := 0
-	mod, err := Parse(Options{FileName: "x.ddp", Source: src, ErrorHandler: func(ddperror.Error) { delivered++ }})
-	if err != nil {
-		_, crashed := err.(*ParserError)
-		rt.Assert(!crashed, "the frontend does not crash internally (ParserError)")
+	mod, crash := vC03Parse(Options{FileName: "x.ddp", Source: src, ErrorHandler: func(ddperror.Error) { delivered++ }})
+	if crash != "" {
+		rt.Assert(false, "the frontend does not crash internally: "+crash)
 		return
 	}
-	rt.Assert(mod != nil && mod.Ast != nil, "a module is returned")
+	rt.Assert(mod == nil || mod.Ast != nil, "a module is returned")
 }
 
 func VerifC03AliasText1()     { verifC03AliasText(1, false) }
 func VerifC03AliasText2()     { verifC03AliasText(2, false) }
 func VerifC03AliasTextBool2() { verifC03AliasText(2, true) }
 func VerifC03AliasTextBool3() { verifC03AliasText(3, true) }
+
+// vC03Parse runs the frontend and turns an internal crash - a ParserError returned by Parse or
+// raised as a panic - into a message that names it (one finding per kind of crash).
+func vC03Parse(opts Options) (mod *ast.Module, crash string) {
+	defer func() {
+		if r := recover(); r != nil {
+			if pe, ok := r.(*ParserError); ok {
+				mod, crash = nil, vC03Kind(pe)
+				return
+			}
+			panic(r)
+		}
+	}()
+	m, err := Parse(opts)
+	if err != nil {
+		if pe, ok := err.(*ParserError); ok {
+			return nil, vC03Kind(pe)
+		}
+		return nil, ""
+	}
+	return m, ""
+}
+
+// vC03Kind: the two kinds of internal crash (the texts differ between the interpreter and the
+// native run, the kind does not).
+func vC03Kind(pe *ParserError) string {
+	if pe.Err != nil {
+		return "a Go runtime error (nil dereference, index out of range, failed type assertion) inside the parser"
+	}
+	return "an internal consistency check of the parser gave up (parser.panic)"
+}
